@@ -225,6 +225,7 @@ pub fn execute(target: Target, t: &Trace, st: &mut Stats, ctx: &Ctx) -> Verdict 
         let mut vt = build(t.config.cols, t.config.rows, None);
         let mut parser = Parser::new();
         let mut m = Model::new(t.config.cols, t.config.rows, true);
+        let mut refp = crate::model::parser::RefParser::new();
         let mut target_steps = 0u64;
         let mut after_resize = false;
         let mut dg = crate::rng::Digest::new();
@@ -257,16 +258,42 @@ pub fn execute(target: Target, t: &Trace, st: &mut Stats, ctx: &Ctx) -> Verdict 
             let mut buf = [0u8; 4];
             for ch in s.chars() {
                 let f = parser.feed(ch);
+                let rf = refp.feed(ch);
                 // one character per call; feed_str so that per-call garbage collection runs
                 vt.feed_str(ch.encode_utf8(&mut buf));
+                if target == Target::Print {
+                    // "each printable character is written": a character the state machine of the
+                    // statement prints (ground state, 0x20-0x7F or >= U+00A0) must reach the terminal
+                    if let Some(crate::model::parser::RF::Print(c)) = &rf {
+                        if !matches!(&f, Some(Function::Print(d)) if d == c) {
+                            return Verdict::Violation {
+                                rule: format!("{}/printable-not-printed", id),
+                                detail: format!("event #{}: the printable character {:?} (U+{:04X}) arrived in ground state but was dispatched as {:?}", ei, c, *c as u32, f),
+                            };
+                        }
+                    }
+                }
                 let Some(f) = f else { continue };
                 let cls = classify(&f, &m);
                 if cls != Some(target) {
                     // not this property's operation: hidden state only, observable state adopted
                     let pre_above_len = m.above.len();
                     let was_alt = m.alt;
+                    // LF / IND / NEL off the bottom margin, RI off the top margin and every other
+                    // cursor command do not scroll (C06: scrolling happens only on the margins)
+                    let pre_grid = if target == Target::Scroll && cls == Some(Target::Cursor) { Some(m.view.clone()) } else { None };
                     m.step(&f);
                     let o = observe(&vt);
+                    if let Some(pv) = pre_grid {
+                        st.bump("off_margin_moves_checked_for_scrolling");
+                        let moved = o.view.len() != pv.len() || o.view.iter().zip(pv.iter()).any(|(a, b)| a.cells != b.cells) || o.above.len() != pre_above_len;
+                        if moved {
+                            return Verdict::Violation {
+                                rule: format!("{}/{}-scrolled-off-margin", id, fname(&f)),
+                                detail: format!("event #{} function {:?} with the cursor at row {} (margins {}..{}, {} rows): rows or scrollback changed although the cursor was not on the margin", ei, f, m.row, m.top, m.bottom, m.rows),
+                            };
+                        }
+                    }
                     if target == Target::Scroll && cls.is_none() && !was_alt && !m.alt {
                         // "no other control function adds to the scrollback" (printing that wraps on
                         // the bottom margin is C04's, buffer switches and RIS replace the screen,
